@@ -14,6 +14,10 @@ let intern (k : string) : Rair.n =
 
 exception Bad of string
 
+(* registers holding the address of the function's stack arguments in front of the T line being read, and the address width *)
+let sa_regs : Rair.n list ref = ref []
+let sa_aw = ref 8
+
 let vreg_of (s : string) : Rair.n =
   if String.length s < 2 || s.[0] <> 'v' then raise (Bad ("vreg " ^ s));
   n_of_int (int_of_string (String.sub s 1 (String.length s - 1)))
@@ -25,6 +29,16 @@ let loc_of (s : string) : Rair.loc =
             | [g; i] -> Rair.LReg (n_of_int (int_of_string g), n_of_int (int_of_string i))
             | _ -> raise (Bad ("loc " ^ s)))
   | 's' -> Rair.LSlot (cz_of_string (String.sub s 1 (String.length s - 1)))
+  | 'a' ->
+    (* "a<reg>:<k>": byte k of the function's stack-argument area, reached through GP register <reg> ("a-:<k>": named by the
+       function entry itself). Accepted only while the extracted, proven RaIRModel.sa_step lists <reg> among the registers
+       holding the address of that area; the area gets slot numbers of its own (2^24 + k) *)
+    (match String.split_on_char ':' (String.sub s 1 (String.length s - 1)) with
+     | [r; k] ->
+       if r <> "-" && not (Rair.id_mem (n_of_int (int_of_string r)) !sa_regs) then
+         raise (Bad ("unmodelled: stack argument read through register " ^ r ^ " which is not known to hold the argument-area address"));
+       Rair.LSlot (cz_of_z (Z.add (Z.shift_left Z.one 24) (Z.of_string k)))
+     | _ -> raise (Bad ("loc " ^ s)))
   | _ -> raise (Bad ("loc " ^ s))
 
 (* parse "<n> (name w)*" from a token list; returns (list, rest) *)
@@ -150,11 +164,14 @@ let ir_search (sp : Rair.sprog) (tp : Rair.tprog) (trials : int) : string =
   done;
   match !found with Some s -> s | None -> Printf.sprintf "ir-search: no counterexample in %d trials (%d terminating)" trials !halted
 
+let alu_cnt : (string, int * int) Hashtbl.t = Hashtbl.create 256
+let alu_bad = ref 0
+
 let () =
   let cur = ref "" and ss = ref [] and ts = ref [] and hs = ref [] and tl = ref [] and bad = ref None in
   let finish () =
     (match !bad with
-     | Some why -> Printf.printf "R %s bad reason=%s %s\n" !cur (if String.length why > 30 && String.sub why 0 12 = "unmodelled: " then (if String.length why > 36 && String.sub why 12 13 = "register list" then "register-list-not-consecutive" else "unmodelled-instruction") else "dump-not-parsable") why
+     | Some why -> Printf.printf "R %s bad reason=%s %s\n" !cur (if String.length why > 30 && String.sub why 0 12 = "unmodelled: " then (if String.length why > 36 && String.sub why 12 13 = "register list" then "register-list-not-consecutive" else if String.length why > 36 && String.sub why 12 14 = "stack argument" then "stack-argument-through-untracked-register" else "unmodelled-instruction") else "dump-not-parsable") why
      | None ->
        if !ss = [] then Printf.printf "R %s nodump\n" !cur
        else begin
@@ -208,16 +225,39 @@ let () =
       let toks = List.filter (fun s -> s <> "") (String.split_on_char ' ' line) in
       (try
         match toks with
-        | "P" :: idx :: _ -> cur := idx
+        | "P" :: idx :: _ -> cur := idx; sa_regs := []
+        | ["M"; aw; r] -> sa_aw := int_of_string aw; sa_regs := [n_of_int (int_of_string r)]
         | "S" :: rest -> if !bad = None then ss := parse_s rest :: !ss
         | "T" :: h :: rest ->
           if !bad = None then begin
             tl := line :: !tl;
             hs := (if h = "-" then None else Some (nat_of_int (int_of_string h))) :: !hs;
-            ts := parse_t rest :: !ts
+            let ti = parse_t rest in
+            ts := ti :: !ts;
+            sa_regs := Rair.sa_step (nat_of_int !sa_aw) ti !sa_regs
           end
         | "E" :: _ -> finish (); flush stdout
+        | ["A"; id; w; form; a; b; res; m] ->
+          (* one execution of a tagged instruction on the host CPU: compare with the extracted value semantics alu_sem
+             wherever alu_defined says it is specified (the idiom theorems only use such instances) *)
+          let op = alu_of id and bz = cz_of_string b in
+          let key = m ^ "/" ^ w ^ "/" ^ form in
+          let (c, k) = (try Hashtbl.find alu_cnt key with Not_found -> (0, 0)) in
+          if Rair.alu_defined op bz then begin
+            let exp = z_of_cz (Rair.alu_sem op (nat_of_int (int_of_string w)) (cz_of_string a) bz) in
+            Hashtbl.replace alu_cnt key (c + 1, k);
+            if not (Z.equal exp (Z.of_string res)) then begin
+              incr alu_bad;
+              if !alu_bad <= 5 then Printf.printf "AR bad %s w=%s %s a=%s b=%s cpu=%s alu_sem=0x%s\n" m w form a b res (Z.format "%x" exp) end
+          end else Hashtbl.replace alu_cnt key (c, k + 1)
+        | "AX" :: rest -> Printf.printf "AR unsupported %s\n" (String.concat " " rest)
         | _ -> ()
       with Bad why -> bad := Some why | Failure why -> bad := Some ("parse: " ^ why))
     done
-  with End_of_file -> ()
+  with End_of_file ->
+    if Hashtbl.length alu_cnt > 0 || !alu_bad > 0 then begin
+      let cmp = Hashtbl.fold (fun _ (c, _) acc -> acc + c) alu_cnt 0 and skip = Hashtbl.fold (fun _ (_, k) acc -> acc + k) alu_cnt 0 in
+      let never = Hashtbl.fold (fun key (c, _) acc -> if c = 0 then key :: acc else acc) alu_cnt [] in
+      Printf.printf "AR summary compared=%d unspecified=%d bad=%d forms=%d never_compared=%s\n" cmp skip !alu_bad (Hashtbl.length alu_cnt)
+        (if never = [] then "-" else String.concat "," (List.sort compare never))
+    end
